@@ -17,6 +17,10 @@ handlers for C14 (`harness/h_params.cpp`): every answer is computed from the tab
 * `params_enum_parse E s`      → enumerator | `invalid`             (`invalid` = `std::invalid_argument`)
 * `params_runtime E e`         → `same` | `unsupported` | `invalid`  does the printed name of `e` parse, and has every
                                  throwing wrapper switch a case for the parsed enumerator?
+* `params_runtime_a2 E e v`    → the same answer; `v` names the replacement system matrix of the solve
+                                 (`same` | `shift:k` | `scale:k` | `skew:k` | `coef:k` | `diag9:k`, k = 1..16).  The dispatch
+                                 tables do not depend on the matrix handed to `operator()`, so the model's answer does not
+                                 either; the numerical comparison is implementation-against-implementation in the harness.
 
 `ill-typed` = the struct's import/export macros do not match the member kinds, i.e. the C++ does not compile when
 instantiated (the harness probes such structs in a separate translation unit).
@@ -74,6 +78,28 @@ def nested (t : ParamTable) (chain : List (String × String)) (f v : String) : S
         | some x => ".".intercalate path ++ "=" ++ x
         | none => "not-exported"
 
+/-- replacement-matrix token of `params_runtime_a2`: `same` or `kind:k` with a canonical decimal `1 ≤ k ≤ 16` -/
+def variantOk (v : String) : Bool :=
+  v = "same" ||
+  match v.splitOn ":" with
+  | [kind, num] =>
+    ["shift", "scale", "skew", "coef", "diag9"].contains kind &&
+    (match num.toNat? with
+     | some k => toString k = num && 1 ≤ k && k ≤ 16
+     | none => false)
+  | _ => false
+
+/-- does the printed name of enumerator `x` parse, and has every throwing wrapper switch a case for it? -/
+def runtimeAnswer (e x : String) : String :=
+  match findEnum e with
+  | none => badInput
+  | some E =>
+    if !E.values.contains x then badInput else
+    -- the harness configures the wrapper with the text `operator<<` prints for the enumerator
+    match E.parse (E.print x) with
+    | none => "invalid"
+    | some e => if E.covered e then "same" else "unsupported"
+
 def two : P (String × String) := do let a ← tok; let b ← tok; pure (a, b)
 def three : P (String × String × String) := do let a ← tok; let b ← tok; let c ← tok; pure (a, b, c)
 
@@ -130,15 +156,9 @@ def handle (op : String) (args : List String) : Option String :=
       match findEnum e with
       | none => badInput
       | some E => (E.parse s).getD "invalid"
-  | "params_runtime" => withArgs two args fun (e, x) =>
-      match findEnum e with
-      | none => badInput
-      | some E =>
-        if !E.values.contains x then badInput else
-        -- the harness configures the wrapper with the text `operator<<` prints for the enumerator
-        match E.parse (E.print x) with
-        | none => "invalid"
-        | some e => if E.covered e then "same" else "unsupported"
+  | "params_runtime" => withArgs two args fun (e, x) => runtimeAnswer e x
+  | "params_runtime_a2" => withArgs three args fun (e, x, v) =>
+      if variantOk v then runtimeAnswer e x else badInput
   | _ => none
 
 end Amgcl.Driver.Params
